@@ -82,6 +82,17 @@ CHECKS = {
         technique='SMT translation validation of emitted JavaScript (symbolic path evaluation), node get-put replay',
         design='§4 C11',
     ),
+    'C04': dict(
+        engine='J', category='translation_validation',
+        text='Creation at the protocol level: templates built from a model (text forms, 23 attribute forms over every family, wx:if/elif/else chains with every pair of '
+             'node kinds per branch, wx:for nested <= 2, block, template is/data, include, slot) are compiled; the emitted code is executed symbolically in creation mode '
+             'and the recorded protocol-call tree (T/E/B/F/S/J calls, R.* setters) is compared with the reference tree derived from the model by an explicit rule table: '
+             'structure, channel and normalised names exactly; every value position, branch condition and template data by z3 for all data.  Generated code that throws at '
+             'creation (undeclared protocol name) is confirmed in node.  What the TypeScript runtime does with the calls is outside.',
+        note='Trusted: jssym interpreter and the rule table of checks/c04.py (printed in the evidence); entity decoding limited to a fixed set; dynamic template names outside.',
+        technique='SMT translation validation of emitted JavaScript (protocol-call tree vs reference rendering)',
+        design='§4 C04',
+    ),
     'C05': dict(
         engine='J+K', category='translation_validation',
         text='Translation validation of scope resolution: templates with nested wx:for (default / renamed / colliding variables), slot: values on elements and '
